@@ -144,3 +144,76 @@ def optimizer_default_maps(t, this, task):
     this.fields['active_spatial_map_'].target = this.fields['default_spatial_map_']
     this.fields['active_time_map_'].target = this.fields['default_time_map_']
     return this
+
+
+# ---------------------------------------------------------------------------------------------- reading contracts back (meta-checks of C10, C13, C14)
+def contract_view(prop, task):
+    """the verified contract of a task as data: [(kind, label, printed sample instance, free names)], assigned storage names"""
+    import check as _check
+    from gen import Quant
+    from expr import E, INT, free_vars, Printer
+    h = _check.build_harness(prop, task, _check.all_contracts())
+    spec = h.gen.last_spec
+    P = Printer('real')
+    sk = [E.var('sk%d' % j, INT) for j in range(3)]
+    rows = []
+
+    def flat(x):
+        if isinstance(x, (list, tuple)):
+            out = []
+            for y in x:
+                out += flat(y)
+            return out
+        return [x]
+    for kind, items in (('requires', spec.reqs), ('ensures', spec.enss)):
+        for label, prop_ in items:
+            if isinstance(prop_, Quant):
+                body = prop_.body(sk[0])
+                parts = []
+                for b in flat(body):
+                    if isinstance(b, Quant):
+                        parts += flat(b.body(sk[1]))
+                    else:
+                        parts.append(b)
+                samples = [E.const(prop_.lo), E.const(prop_.hi)] + [E.const(b) for b in parts]
+            else:
+                samples = [E.const(b) for b in flat(prop_)]
+            fv = set()
+            txt = []
+            for smp in samples:
+                fv |= free_vars(smp)
+                try:
+                    txt.append(P.p(smp))
+                except Exception:
+                    txt.append(repr(smp))
+            rows.append((kind, label, ' ; '.join(txt), fv))
+    assigned = set()
+    from gen import storage_of
+    for v in spec.assigned:
+        st = storage_of(v)
+        if st:
+            assigned |= {n for n, _ in st[0]} | {'@' + n for n, _ in st[1]}
+    return rows, assigned, h
+
+
+def _meta_job(args):
+    modname, fname, a = args
+    import importlib
+    for m in ('ppoly', 'splines', 'optimizer', 'adjoint'):
+        importlib.import_module(m)
+    mod = importlib.import_module(modname)
+    try:
+        return getattr(mod, fname)(*a)
+    except Exception as ex:
+        return [{'oid': '%s/%s/meta' % (modname, '.'.join(str(x) for x in a[:2])), 'status': 'undecided', 'detail': 'could not read the contract back: %s' % str(ex)[:200]}]
+
+
+def run_meta_jobs(jobs, workers=12):
+    """jobs: [(module name, function name, args)] evaluated in worker processes (reading a contract back means translating the
+    function and evaluating its contract once, which is CPU-bound python)"""
+    import concurrent.futures
+    out = []
+    with concurrent.futures.ProcessPoolExecutor(max_workers=workers) as ex:
+        for r in ex.map(_meta_job, jobs):
+            out += r
+    return out
